@@ -4,9 +4,13 @@
 package rpc
 
 import (
+	"errors"
 	"fmt"
 	"github.com/hslam/code"
 )
+
+// errMalformedHeader is returned when a message header is truncated or inconsistent.
+var errMalformedHeader = errors.New("malformed header")
 
 type pbRequest struct {
 	Seq           uint64
@@ -120,7 +124,14 @@ func (req *pbRequest) MarshalTo(buf []byte) (int, error) {
 }
 
 // Unmarshal unmarshals from data.
-func (req *pbRequest) Unmarshal(data []byte) error {
+func (req *pbRequest) Unmarshal(data []byte) (err error) {
+	// The varint and length-prefix decoders index the input without bounds
+	// checks; truncated or inconsistent input must be an error, not a crash.
+	defer func() {
+		if r := recover(); r != nil {
+			err = errMalformedHeader
+		}
+	}()
 	var length = uint64(len(data))
 	var offset uint64
 	var n uint64
@@ -257,7 +268,14 @@ func (res *pbResponse) MarshalTo(buf []byte) (int, error) {
 }
 
 // Unmarshal unmarshals from data.
-func (res *pbResponse) Unmarshal(data []byte) error {
+func (res *pbResponse) Unmarshal(data []byte) (err error) {
+	// The varint and length-prefix decoders index the input without bounds
+	// checks; truncated or inconsistent input must be an error, not a crash.
+	defer func() {
+		if r := recover(); r != nil {
+			err = errMalformedHeader
+		}
+	}()
 	var length = uint64(len(data))
 	var offset uint64
 	var n uint64
